@@ -109,7 +109,16 @@ meta["demo_with_patch"] = "passes (BAD)" if ok_with else "fails (expected)"
 meta["demo_with_patch_log"] = log_with[-1200:]
 unplace()
 
-if "--no-suite" not in opt:
+if "--no-suite" in opt:
+    # keep what an earlier full run recorded for the same patch text
+    try:
+        old = json.load(open(f"/verif/seeded/{pid}-{n}/meta.json"))
+        if open(f"/verif/seeded/{pid}-{n}/patch.diff").read() == open(patch).read():
+            for k in ("suite_with_patch", "suite_ok", "suite_missing"):
+                if k in old: meta[k] = old[k]
+    except Exception:
+        pass
+else:
     rc, out = sh(f"python3 /verif/tools/baseline.py {WT} --retry", None, 3600)
     meta["suite_with_patch"] = out.strip().splitlines()[0] if out.strip() else "?"
     meta["suite_ok"] = rc == 0
